@@ -644,3 +644,281 @@ func dCellValue(a *ssa.Alloc) ssa.Value {
 	}
 	return val
 }
+
+// ---------------------------------------------------------------------------------------------
+// calls through function values: tables of functions and function-typed parameters
+
+type dDynIndex struct {
+	tables map[*ssa.Global][]*ssa.Function // nil entry = not a constant table
+	calls  map[ssa.CallInstruction][]*ssa.Function
+}
+
+var dDynCache = map[*Prog]*dDynIndex{}
+
+func dDyn(p *Prog) *dDynIndex {
+	if d := dDynCache[p]; d != nil {
+		return d
+	}
+	d := &dDynIndex{tables: map[*ssa.Global][]*ssa.Function{}, calls: map[ssa.CallInstruction][]*ssa.Function{}}
+	dDynCache[p] = d
+	return d
+}
+
+func dFuncOf(v ssa.Value) *ssa.Function {
+	switch x := unwrap(v).(type) {
+	case *ssa.Function:
+		return x
+	case *ssa.MakeClosure:
+		if f, ok := x.Fn.(*ssa.Function); ok && len(x.Bindings) == 0 {
+			return f
+		}
+	}
+	return nil
+}
+
+// dTableElements returns the functions held by a package-level slice/array/map of functions that
+// is assigned only by its package initialiser with a literal of statically known functions and is
+// never written anywhere else in the repository. ok=false if it is not such a constant table.
+func dTableElements(p *Prog, g *ssa.Global) ([]*ssa.Function, bool) {
+	d := dDyn(p)
+	if fs, seen := d.tables[g]; seen {
+		return fs, fs != nil
+	}
+	d.tables[g] = nil
+	if g.Pkg == nil || !p.IsRepoPkg(g.Pkg.Pkg.Path()) {
+		return nil, false
+	}
+	fns := append([]*ssa.Function{}, p.RepoFuncs()...)
+	initFn := g.Pkg.Func("init")
+	if initFn != nil {
+		fns = append(fns, initFn)
+	}
+	var elems []*ssa.Function
+	nInit := 0
+	for _, fn := range fns {
+		for _, b := range fn.Blocks {
+			for _, in := range b.Instrs {
+				uses := false
+				for _, op := range in.Operands(nil) {
+					if *op == ssa.Value(g) {
+						uses = true
+					}
+				}
+				if uses {
+					switch x := in.(type) {
+					case *ssa.UnOp:
+						if x.Op != token.MUL {
+							return nil, false
+						}
+					case *ssa.Store:
+						if x.Addr != ssa.Value(g) || fn != initFn {
+							return nil, false
+						}
+						nInit++
+						// the literal: a slice of a local array, or a map literal
+						var vals []ssa.Value
+						switch lit := unwrap(x.Val).(type) {
+						case *ssa.Slice:
+							a, ok := lit.X.(*ssa.Alloc)
+							if !ok {
+								return nil, false
+							}
+							for _, rf := range refs(a) {
+								switch y := rf.(type) {
+								case *ssa.IndexAddr:
+									for _, r2 := range refs(y) {
+										st, ok := r2.(*ssa.Store)
+										if !ok || st.Addr != ssa.Value(y) {
+											return nil, false
+										}
+										vals = append(vals, st.Val)
+									}
+								case *ssa.Slice:
+								default:
+									return nil, false
+								}
+							}
+						case *ssa.MakeMap:
+							for _, rf := range refs(lit) {
+								switch y := rf.(type) {
+								case *ssa.MapUpdate:
+									vals = append(vals, y.Value)
+								case *ssa.Store:
+								default:
+									return nil, false
+								}
+							}
+						default:
+							return nil, false
+						}
+						for _, v := range vals {
+							f := dFuncOf(v)
+							if f == nil {
+								return nil, false
+							}
+							elems = append(elems, f)
+						}
+					default:
+						return nil, false
+					}
+					continue
+				}
+				// writes into the table's elements
+				for _, w := range dMemWrites(in) {
+					if w.V == ssa.Value(g) {
+						continue
+					}
+					for _, c := range dChains(w.V, true) {
+						if c.Root == ssa.Value(g) {
+							return nil, false
+						}
+					}
+				}
+			}
+		}
+	}
+	if nInit != 1 || len(elems) == 0 {
+		return nil, false
+	}
+	d.tables[g] = elems
+	return elems, true
+}
+
+// dDynCallees resolves the possible callees of a call instruction: the static callee, the elements
+// of a constant function table the called value is taken from, or — for a function-typed parameter —
+// the functions passed at every call site. ok=false when the callee set is not known.
+func dDynCallees(p *Prog, ci ssa.CallInstruction) ([]*ssa.Function, bool) {
+	c := ci.Common()
+	if c.IsInvoke() {
+		return nil, false
+	}
+	if f := staticCallee(c); f != nil {
+		return []*ssa.Function{f}, true
+	}
+	if _, isB := c.Value.(*ssa.Builtin); isB {
+		return nil, false
+	}
+	d := dDyn(p)
+	if fs, seen := d.calls[ci]; seen {
+		return fs, fs != nil
+	}
+	d.calls[ci] = nil
+	var out []*ssa.Function
+	seen := map[*ssa.Function]bool{}
+	var resolve func(v ssa.Value, depth int) bool
+	resolve = func(v ssa.Value, depth int) bool {
+		if depth > 3 {
+			return false
+		}
+		if f := dFuncOf(v); f != nil {
+			if !seen[f] {
+				seen[f] = true
+				out = append(out, f)
+			}
+			return true
+		}
+		chains := dChains(v, true)
+		if len(chains) == 0 {
+			return false
+		}
+		for _, ch := range chains {
+			switch r := ch.Root.(type) {
+			case *ssa.Global:
+				fs, ok := dTableElements(p, r)
+				if !ok {
+					return false
+				}
+				for _, f := range fs {
+					if !seen[f] {
+						seen[f] = true
+						out = append(out, f)
+					}
+				}
+			case *ssa.Parameter:
+				if len(ch.Path) != 0 || ch.Loads != 0 {
+					return false
+				}
+				sites := p.callSitesAll(r.Parent())
+				if len(sites) == 0 {
+					return false
+				}
+				for _, cs := range sites {
+					idx := paramIndex(r)
+					if idx >= len(cs.Common().Args) || !resolve(cs.Common().Args[idx], depth+1) {
+						return false
+					}
+				}
+			case *ssa.Function, *ssa.MakeClosure:
+				if !resolve(r, depth+1) {
+					return false
+				}
+			default:
+				return false
+			}
+		}
+		return true
+	}
+	if !resolve(c.Value, 0) || len(out) == 0 {
+		return nil, false
+	}
+	d.calls[ci] = out
+	return out, true
+}
+
+// dReachable is reachableFuncs closed under calls through constant function tables and
+// function-typed parameters.
+func dReachable(p *Prog, roots ...*ssa.Function) map[*ssa.Function]bool {
+	seen := p.reachableFuncs(roots...)
+	for changed := true; changed; {
+		changed = false
+		for _, fn := range sortedFuncs(seen) {
+			if !p.IsRepoFunc(fn) {
+				continue
+			}
+			for _, ci := range callsIn(fn) {
+				if ci.Common().IsInvoke() || staticCallee(ci.Common()) != nil {
+					continue
+				}
+				fs, ok := dDynCallees(p, ci)
+				if !ok {
+					continue
+				}
+				for _, f := range fs {
+					if !seen[f] && p.IsRepoFunc(f) {
+						for g := range p.reachableFuncs(f) {
+							if !seen[g] {
+								seen[g] = true
+								changed = true
+							}
+						}
+					}
+				}
+			}
+		}
+	}
+	return seen
+}
+
+// dCallSitesIn lists the call sites of fn inside the given functions, including calls through
+// function values resolved by dDynCallees.
+func dCallSitesIn(p *Prog, fn *ssa.Function, in map[*ssa.Function]bool) []ssa.CallInstruction {
+	out := callSitesOf(fn, in)
+	for _, f := range sortedFuncs(in) {
+		if !p.IsRepoFunc(f) {
+			continue
+		}
+		for _, ci := range callsIn(f) {
+			if ci.Common().IsInvoke() || staticCallee(ci.Common()) != nil {
+				continue
+			}
+			if fs, ok := dDynCallees(p, ci); ok {
+				for _, g := range fs {
+					if g == fn {
+						out = append(out, ci)
+					}
+				}
+			}
+		}
+	}
+	return out
+}
